@@ -300,6 +300,11 @@ Definition c_entry_gen (fixed : bool) (ep : entry) (args : list pyval) : cres :=
 Definition c_entry := c_entry_gen true.
 Definition c_entry_legacy := c_entry_gen false.
 
+(* the extension keeps no state between calls (no statics besides the debug flag): the answer to a sequence of
+   calls in one process is the list of the answers each call gets in a fresh process *)
+Definition c_entry_seq (fixed : bool) (calls : list (entry * list pyval)) : list cres :=
+  map (fun c => c_entry_gen fixed (fst c) (snd c)) calls.
+
 (* =========================================================== users() *)
 (* struct utmp on Linux/x86-64 (384 bytes): field widths in order
    ut_type(2) pad(2) ut_pid(4) ut_line(32) ut_id(4) ut_user(32) ut_host(256)
